@@ -15,7 +15,7 @@ RULE = ("cases = (a) IniFile histories on one path: an INI text generated from s
         "and/or destruction, reopen, and a fresh read-only IniFile at the end; (b) the same as one composite op judged by an "
         "independent python INI semantics; (c) 'wild' INI texts outside the grammar (garbage lines, unclosed or indented headers, "
         "'/' in keys, blank-padded values) for the model correspondence only; (d) tables up to 30x8 written through "
-        "TabularDataFile and read back, cells = %.15g numbers of every magnitude 1e-290..1e300, ints, empty strings, strings over "
+        "TabularDataFile and read back, cells = %.15g numbers of every magnitude 4.9e-324..1.8e308 (subnormals included), ints, empty strings, strings over "
         "letters digits , ; \" ' space - . e +; (e) arbitrary CSV texts through the reader; (f) myatof on number lexemes; "
         "non-trivial = distinct case with at least one set on a non-empty text, or a table with at least one non-empty cell")
 TRUSTED = ["harness/c18.cpp number cells: strtod() of the %.15g lexeme produces the double handed to TabularDataFile, "
@@ -26,7 +26,8 @@ ASSUMPTIONS = [
     "texts and strings are NUL-free (C strings)",
     "snprintf(\"%.15g\") of the double nearest to a decimal of <= 15 significant digits prints that decimal (DBL_DIG = 15); "
     "strtod is correctly rounded",
-    "double(y1) * pow(10.0, exp) with y1 < 10^15 and exp >= -307 is within 15 significant digits of y1*10^exp "
+    "double(y1) * pow(10.0, exp) (for exp < -300: double(y1) * pow(10.0, exp + 300) * 1e-300) with y1 < 10^15 is within 15 significant "
+    "digits of y1*10^exp, resp. is the double whose %.15g text was read when that double is subnormal "
     "(the model carries the exact rational; K compares printf(\"%.15g\") of the library's double with the model's exact decimal)",
     "Dic<T> (sorted array + binary search) behaves as a finite map ordered by strcmp (C02)",
     "String primitives substring/indexOf/trim/operator== (C03)",
@@ -219,31 +220,24 @@ def fmt15(x):
     return ("%.15g" % x).encode()
 
 
-def tiny(lex):
-    """the known-finding class csv-tiny-number: myatof's pow(10, exp) is subnormal or zero (exp < -307)"""
-    m = re.match(rb"^-?(\d+)(?:\.(\d*))?(?:[eE]([+-]?\d+))?$", lex)
-    if not m:
-        return False
-    frac = len(m.group(2) or b"")
-    e = int(m.group(3) or b"0")
-    return e - frac < -307
-
-
 def rnumber(rng):
     r = rng.random()
     if r < 0.25:
         return str(rng.randrange(-1000, 100000)).encode()
     if r < 0.3:
         return rng.choice([b"0", b"-0", b"1e+15", b"123456789012345", b"999999999999999", b"0.0001", b"9.99999999999999e-05", b"1e-05",
-                           b"0.1", b"-2.5", b"1e+300", b"1.79769313486231e+308", b"2147483647", b"-2147483648", b"1234567890", b"1e+22", b"1e+23"])
+                           b"0.1", b"-2.5", b"1e+300", b"1.79769313486231e+308", b"2147483647", b"-2147483648", b"1234567890", b"1e+22", b"1e+23",
+                           b"1.2345678901234e-300", b"4.94065645841247e-324", b"2.2250738585072e-308", b"2.2250738585072e-308", b"1e-307", b"-9.88131291682493e-324"])
     if r < 0.65:
         x = rng.uniform(-1000, 1000)
         if rng.random() < 0.5:
             x = round(x, rng.randrange(0, 6))
         return fmt15(x)
-    e = rng.randrange(-290, 301)
-    lex = fmt15(rng.uniform(1, 10) * (10.0 ** e) * rng.choice([1, -1]))
-    if tiny(lex) or b"inf" in lex:
+    # every magnitude a double has, subnormals included (7b5df72 repaired myatof below 1e-293)
+    e = rng.randrange(-323, 301) if rng.random() < 0.8 else rng.randrange(-323, -285)
+    x = rng.uniform(1, 10) * (10.0 ** e) * rng.choice([1, -1])
+    lex = fmt15(x)
+    if x == 0 or b"inf" in lex:
         return b"1"
     return lex
 
@@ -360,11 +354,13 @@ def gen(rng, tier):
         cases.append(csvtext_case(rng, tier))
     for _ in range(60 * k):
         cases.append(atof_case(rng, tier))
-    # every number of decimal exponent -290..300 once, 15 digits
-    if tier != "quick":
+    # every decimal exponent -323..300, 15 digits (once in the quick tier, 8 times in the thorough tier)
+    for rep in range(1 if tier == "quick" else 8):
         batch = []
-        for e in range(-290, 301):
-            batch.append("atof " + hexs(fmt15(rng.uniform(1, 10) * 10.0 ** e)))
+        for e in range(-323, 301):
+            x = rng.uniform(1, 10) * 10.0 ** e
+            if x != 0:
+                batch.append("atof " + hexs(fmt15(x)))
         cases.append(batch)
     rng.shuffle(cases)
     return cases
@@ -548,9 +544,7 @@ def reference(line):
 
 REFERENCE_NAME = "python: INI dictionary semantics + set sequence; identity on tables; csv.writer; float()/%.15g"
 
-KNOWN = [
-    {"key": "csv-tiny-number", "desc": "number below ~1e-293 read back wrong", "case": ["tabrt 1 78 n:1.2345678901234e-300"]},
-]
+KNOWN = []
 
 TECHNIQUE = ("Lean 4 theorems (induction over lines / bytes, invariants over set/write histories) about executable models of the "
              "IniFile reader/writer and the TabularDataFile row writer/parser + differential correspondence check against the real library")
@@ -561,26 +555,33 @@ LEVEL_TEXT = ("Proved in Lean 4 about the model that the driver runs against the
               "the section-less group, interleaved with any number of explicit write() calls and ended by the destructor's write, a "
               "fresh IniFile on the resulting file returns for every section/key the last value set, else the document's value, and "
               "the resulting file is again a document of the grammar with that meaning (so the statement composes over sessions); "
-              "(3) ini_write_in_bounds: for any file bytes or a missing file and any set / operator[]= / write history with any byte "
-              "strings, write never reads outside _lines; (4) ini_order: for any object state the written text contains all original "
-              "lines in order, non-entry lines byte for byte, entry lines respelled key=value with the same key, new lines only inserted; "
-              "(5) csv_row_roundtrip: for every separator and every non-empty row of strings of any bytes (separators, quotes, blanks, "
-              "empty) and number texts, parseRow(writeRow r) = r cell for cell; csv_table_roundtrip: for every list of identifier "
+              "(3) ini_write_in_bounds: for any NUL-free file bytes or a missing file and any set / operator[]= / write history with any NUL-free "
+              "byte strings, write never reads outside _lines; (4) ini_order: for any object state the written text contains all lines of "
+              "_lines in order, non-entry lines byte for byte, entry lines respelled key=value with the same key, new lines only inserted; "
+              "ini_order_file: end to end for every document and session as in (2), the file left is either the old text or consists of "
+              "the old file's lines (up to empty lines at the very end) in their order with entries respelled and new lines inserted, in "
+              "particular all comment and section-header lines byte for byte in the same relative order; "
+              "(5) csv_row_roundtrip: for every separator and every non-empty row of strings of any bytes other than NUL, LF, CR "
+              "(separators, quotes, blanks, empty) and number texts, parseRow(writeRow r) = r cell for cell; csv_table_roundtrip: for every list of identifier "
               "column names and every table of such cells (strings without line breaks that do not spell a number, number texts) the "
               "file written through columns()/operator<< and read by a fresh TabularDataFile (header detection, separator sniffing, "
               "data() loop, BOM test, type inference) gives back the columns and the rows cell for cell, numbers as myatof of the text "
               "written; (6) csv_number_exact_Q: every number text "
-              "[-]digits[.digits][(e|E)[+|-]digits] is accepted by myisnumber and the rational y1*10^exp computed by myatof before its "
-              "floating-point multiplication equals the number spelled. The models are tied to src/IniFile.cpp and "
+              "[-]digits[.digits][(e|E)[+|-]digits] with at most 18 mantissa digits and 9 exponent digits is accepted by myisnumber, keeps "
+              "the code's long long y1 below 2^63 and its int exponent within +-2^31 (so the model's integers are the machine's), and the "
+              "rational y1*10^exp held by myatof before its floating-point multiplication equals the number spelled. All texts, keys, "
+              "values, names and cells in these theorems are NUL-free (the code is C-string based). The models are tied to src/IniFile.cpp and "
               "src/TabularDataFile.cpp by the correspondence check (INI histories incl. texts outside the grammar, whole tables through "
               "the real files, arbitrary CSV texts, myatof on every decimal exponent) and by independent python oracles.")
-LEVEL_NOTE = ("Validated by the correspondence check only (no theorem): the last step of the 15-digit clause -- "
-              "double(y1)*pow(10.0,exp) printed with %.15g gives the written digits -- is floating point, carried by the listed libc/IEEE "
+LEVEL_NOTE = ("NO THEOREM covers the '15 significant digits' clause itself: that double(y1)*pow(10.0,exp) (two-step scaling below 1e-300 "
+              "since fix 7b5df72) printed with %.15g gives the written digits is floating point, validated by the correspondence check only, "
+              "carried by the listed libc/IEEE "
               "assumptions and compared on every number of every run (the model prints the exact decimal with its own %.15g formatter "
               "fmt15, which has no theorem); Var::toString's %.15g of the double handed in; CSV files not written by TabularDataFile "
               "(other separators, decimal comma, no header, missing final line end: the last row is then not returned); IniFile::values(), "
               "sectionNames(), plain names without '/', operator[]= and reopen are in the model and in K but the persist theorem is stated "
               "for set(\"section/key\") and const operator[]; keys outside KeyOK (containing '/', '=' or starting below '0') and values with "
-              "outer blanks are K-only. Known finding csv-tiny-number (|x| < ~1e-293 read back wrong) is excluded from the generator and "
-              "probed. Not modelled: IniFile::section()/arraysize()/array() (deprecated), write(otherName); TabularDataFile ARFF output, "
+              "outer blanks are K-only. The former known finding csv-tiny-number (|x| < ~1e-293 read back wrong) is repaired (7b5df72) and its "
+              "witness runs from the corpus; number texts with more than 18 mantissa or 9 exponent digits overflow in the C code and are "
+              "outside theorem and generator. Not modelled: IniFile::section()/arraysize()/array() (deprecated), write(otherName); TabularDataFile ARFF output, "
               "readAs(), setSeparator/setDecimal/useQuotes/flushEvery. Trusted: Lean kernel, harness/c18.cpp, the generator; libc fgets/feof, strtod, snprintf %.15g, pow as listed.")
